@@ -47,6 +47,7 @@ ASSUMPTIONS = [
     "relaxation: a failed creation whose directory reopens with exactly the complete new input is accepted",
 ]
 PROBES = [
+    "libc_errno_fired",
     "fault_in_first_chunk",
     "fault_in_middle_chunk",
     "fault_in_last_chunk",
@@ -165,6 +166,16 @@ def gen_cases(tier: str, verif_seed: int, runs: int | None = None) -> list[dict]
             c["data"]["n"] = 30
             c["patch"]["k"] = 2
             cases.append(c)
+        # --- errno at every libc-level file operation (crashfs shim, sequential mode)
+        for en in ("ENOSPC", "EIO", "EACCES", "EROFS"):
+            p = prng()
+            c = _base(p, 1, fault=dict(kind="libc_errno", errno=en, sticky=p.chance(1, 2)), shim_enumerate=True)
+            c["data"]["n"] = 24
+            c["patch"]["k"] = 2
+            c["chunksize"] = 10
+            if en == "EIO":
+                c["prior"], c["overwrite"] = "catalog", True
+            cases.append(c)
     if runs is not None:
         cases = cases[:runs]
     return cases
@@ -175,6 +186,17 @@ def case_size(case: dict) -> int:
 
 
 def shrinks(case: dict):
+    if case.get("shim_enumerate"):
+        k = case.get("_focus")
+        if k is not None:
+            c = copy.deepcopy(case)
+            c.pop("shim_enumerate")
+            c.pop("_focus", None)
+            c["fault"]["k"] = k
+            yield c
+        return
+    if (case.get("fault") or {}).get("kind") == "libc_errno":
+        return
     if case.get("fs_enumerate"):
         k = case.get("_focus")
         c = copy.deepcopy(case)
@@ -352,7 +374,121 @@ def _one(case: dict, root: str) -> tuple[dict, dict | None, str | None]:
     return o, sig, detail
 
 
+def _run_shim_case(case: dict) -> dict:
+    """errno at every libc-level mutating file operation of a sequential creation
+    (engine E2).  Oracle: the creation raises (or, when the fault did not disturb
+    it, returns the exact catalog); afterwards Catalog(target) raises or holds
+    exactly the complete input."""
+    import hashlib
+
+    import numpy as np
+    import yaw
+
+    from sim import crashfs
+    from sim.scenes import sequential_mode
+
+    root = tempfile.mkdtemp(prefix="c09s-", dir=wl.scratch_root())
+    try:
+        rec, pids, centers = creation.case_records(case)
+        tpl = os.path.join(root, "tpl")
+        os.makedirs(tpl)
+        target_rel = "cat"
+        if case.get("prior") == "catalog":
+            creation._make_prior(case, os.path.join(tpl, target_rel), root)
+        cols, parts, amb = orc.expected_partition(rec, centers_rad=centers)
+        old_cache = orc.read_cache(os.path.join(tpl, target_rel)) if case.get("prior") == "catalog" else None
+        work = os.path.join(root, "work")
+        log = os.path.join(root, "oplog.txt")
+        f = case["fault"]
+
+        def fresh():
+            shutil.rmtree(work, ignore_errors=True)
+            shutil.copytree(tpl, work)
+
+        def workload(mode, k):
+            def fn():
+                crashfs.arm(work, log if mode == crashfs.MODE_COUNT else None, mode, k, crashfs.ERRNOS[f["errno"]], f.get("sticky", False))
+                try:
+                    with sequential_mode():
+                        cat = yaw.Catalog.from_dataframe(
+                            os.path.join(work, target_rel), wl.make_dataframe(rec),
+                            patch_centers=yaw.AngularCoordinates(centers), chunksize=case["chunksize"],
+                            overwrite=case.get("overwrite", False), max_workers=1, **wl.column_kwargs(rec),
+                        )
+                    out = ("returned", int(sum(cat.get_num_records())))
+                except Exception as err:  # noqa: BLE001
+                    out = ("raised", type(err).__name__)
+                n = crashfs.disarm()
+                return out, n
+
+            return fn
+
+        def next_use():
+            try:
+                with sequential_mode():
+                    cat = yaw.Catalog(os.path.join(work, target_rel), max_workers=1)
+                cache = orc.read_cache(os.path.join(work, target_rel))
+            except Exception as err:  # noqa: BLE001
+                return ("raises", type(err).__name__)
+            ok = not orc.compare_cache(cache, cols, parts, amb) and sorted(cat.keys()) == sorted(cache)
+            if ok:
+                return ("opens_complete",)
+            if old_cache is not None and sorted(cache) == sorted(old_cache) and all(
+                orc.rows_equal_multiset(old_cache[p][1], cache[p][1]) is None for p in cache
+            ):
+                return ("opens_old_complete",)  # pre-existing cache still intact
+            return ("opens_other", sum(len(r) for _, r in cache.values()))
+
+        fresh()
+        if os.path.exists(log):
+            os.remove(log)
+        code, payload = crashfs.run_child(workload(crashfs.MODE_COUNT, -1))
+        if code != 0 or payload is None or payload[0] != "ok" or payload[1][0][0] != "returned":
+            return dict(verdict="harness_error", error=f"fault-free shim workload failed: {code} {payload}")
+        nops = payload[1][1]
+        oplog = crashfs.read_oplog(log)
+        subs, probes, faults = [], {}, {}
+        violation = None
+        ks = [case["fault"]["k"]] if case["fault"].get("k") is not None else range(1, nops + 1)
+        for k in ks:
+            fresh()
+            code, payload = crashfs.run_child(workload(crashfs.MODE_ERRNO, k))
+            if code != 0 or payload is None or payload[0] != "ok":
+                return dict(verdict="harness_error", error=f"errno@{k}: workload child failed: {code} {payload}")
+            (outcome, info), _ = payload[1]
+            code, nu = crashfs.run_child(next_use)
+            if code != 0 or nu is None or nu[0] != "ok":
+                return dict(verdict="harness_error", error=f"errno@{k}: recovery child failed: {code} {nu}")
+            nu = nu[1]
+            faults[f["errno"]] = faults.get(f["errno"], 0) + 1
+            probes["libc_errno_fired"] = probes.get("libc_errno_fired", 0) + 1
+            op = oplog[k - 1].split(" ") if k <= len(oplog) else ["?", "?", "?"]
+            sig = None
+            if outcome == "returned" and nu[0] != "opens_complete":
+                sig = _sig(case, dict(fs_fault_task="main"), "no_raise", op=op[1], file=os.path.basename(op[2]).split("_")[0])
+                detail = f"{f['errno']} at libc operation {k}/{nops} ({' '.join(op[1:3])}): creation returned {info} records but the cache {nu}"
+            elif outcome == "raised" and nu[0] == "opens_other":
+                sig = _sig(case, dict(fs_fault_task="main"), "valid_cache_after_failure", op=op[1], file=os.path.basename(op[2]).split("_")[0])
+                detail = f"{f['errno']} at libc operation {k}/{nops} ({' '.join(op[1:3])}): creation raised {info} but Catalog(target) opens with {nu[1]} of {case['data']['n']} records"
+            subs.append(dict(digest=hashlib.sha256(f"{k}:{outcome}:{info}:{nu}".encode()).hexdigest(), nontrivial=True, steps=k))
+            if sig is not None:
+                violation = dict(signature=sig, detail=detail, focus=k, tail=oplog[max(0, k - 10):k])
+                break
+        h = hashlib.sha256()
+        for s_ in subs:
+            h.update(s_["digest"].encode())
+        res = dict(verdict="ok" if violation is None else "violation", subs=subs, digest=h.hexdigest(), nontrivial=True,
+                   steps=sum(s_["steps"] for s_ in subs), probes=probes, faults=faults, head=oplog[:20])
+        if violation is not None:
+            res.update(violation)
+        return res
+    finally:
+        shutil.rmtree(root, ignore_errors=True)
+
+
 def run_case(case: dict) -> dict:
+    if (case.get("fault") or {}).get("kind") == "libc_errno":
+        return _run_shim_case(case)
     root = tempfile.mkdtemp(prefix="c09-", dir=wl.scratch_root())
     probes: dict[str, int] = {}
     faults: dict[str, int] = {}
